@@ -174,6 +174,9 @@ def gen_case(rng, abi=False):
         if r3.chance(0.12):
             # C source with other line endings than '\n' (a file read with newline='', a literal)
             source = source.replace('\n', '\r\n') if r3.chance(0.6) else source + '/* old mac */\rint eol_dummy;\r'
+        elif r3.chance(0.12):
+            # characters that some line-splitting functions treat as line boundaries and others do not
+            source += '\n/* page break */\x0c\nint ff_dummy;\x0b /* vt */ \x1c\x1d\x1e /* nel */ \x85 /* ls ps */ \u2028 \u2029\n'
     packed = rng.chance(0.1)
     case = dict(cdef='\n'.join(decls), name=modname, source=source, packed=packed)
     # declarations that reach the FFI object by other ways than its first cdef(): an included
